@@ -39,7 +39,7 @@ func ToNumber(v Value) (int64, float64, NumberType) {
 		return 0, v.AsFloat(), IsFloat
 	case string:
 		s := v.AsString()
-		return StringToNumber(strings.TrimSpace(s))
+		return StringToNumber(s)
 	}
 	return 0, 0, NaN
 }
@@ -54,7 +54,7 @@ func ToNumberValue(v Value) (Value, NumberType) {
 		return v, IsFloat
 	}
 	if s, ok := v.TryString(); ok {
-		n, f, tp := StringToNumber(strings.TrimSpace(s))
+		n, f, tp := StringToNumber(s)
 		switch tp {
 		case IsInt:
 			return IntValue(n), IsInt
@@ -137,67 +137,141 @@ func stringToInt(s string) (int64, NumberType) {
 	return 0, NaN
 }
 
+// StringToNumber converts s to an integer or a float following the syntax of
+// numerals of the Lua lexer: s may have leading and trailing white space and
+// one sign.  The NumberType returned is NaN if s is not a numeral.
 func StringToNumber(s string) (n int64, f float64, tp NumberType) {
-	s = strings.TrimSpace(s)
-	var err error
-	if len(s) == 0 {
-		tp = NaN
-		return
-	}
-	var i0 = 0
-	// If the string starts with -?0[xX] then it may be an hex number
-	if s[0] == '+' {
-		s = s[1:]
-	} else if s[0] == '-' || s[0] == '+' {
-		i0++
-	}
-	var isHex = len(s) >= 2+i0 && s[i0] == '0' && (s[i0+1] == 'x' || s[i0+1] == 'X')
-	var isFloat = isHex && strings.ContainsAny(s, ".pP") || !isHex && strings.ContainsAny(s, ".eE")
-	if isFloat {
-		// This is to make strconv.ParseFloat happy
-		if isHex && !strings.ContainsAny(s, "pP") {
-			s = s + "p0"
+	s = trimLuaSpace(s)
+	switch scanNumeral(s) {
+	case decIntNumeral:
+		var err error
+		n, err = strconv.ParseInt(s, 10, 64)
+		if err == nil {
+			return n, 0, IsInt
 		}
-		f, err = strconv.ParseFloat(s, 64)
-		if err != nil && f == 0 {
-			tp = NaN
-			return
+		// A decimal integer that does not fit an int64 is a float
+		f, _ = strconv.ParseFloat(s, 64)
+		return 0, f, IsFloat
+	case hexIntNumeral:
+		// An hexadecimal integer wraps around modulo 2^64: only its last 16
+		// digits count.
+		neg := s[0] == '-'
+		if s[0] == '-' || s[0] == '+' {
+			s = s[1:]
 		}
-		tp = IsFloat
-		return
-	}
-
-	// If s is an hex number, it is parsed as a uint of 64 bits
-	if isHex {
-		us := s[2+i0:]
-		if len(us) > 16 {
-			us = us[len(us)-16:]
+		s = s[2:]
+		if len(s) > 16 {
+			s = s[len(s)-16:]
 		}
-		un, err := strconv.ParseUint(us, 16, 64)
-		if err != nil {
-			tp = NaN
-			return
-		}
+		un, _ := strconv.ParseUint(s, 16, 64)
 		n = int64(un)
-		if s[0] == '-' {
+		if neg {
 			n = -n
 		}
-		tp = IsInt
-		return
-	}
-	n, err = strconv.ParseInt(s, 10, 64)
-	if err != nil {
-		if err.(*strconv.NumError).Err == strconv.ErrRange {
-			// Try a float instead
-			f, err = strconv.ParseFloat(s, 64)
-			if err == nil || f != 0 {
-				tp = IsFloat
-				return
-			}
+		return n, 0, IsInt
+	case decFloatNumeral:
+		// On overflow / underflow ParseFloat returns ±Inf / 0 and a range
+		// error, which is the value the numeral denotes.
+		f, _ = strconv.ParseFloat(s, 64)
+		return 0, f, IsFloat
+	case hexFloatNumeral:
+		// This is to make strconv.ParseFloat happy
+		if !strings.ContainsAny(s, "pP") {
+			s = s + "p0"
 		}
-		tp = NaN
-		return
+		f, _ = strconv.ParseFloat(s, 64)
+		return 0, f, IsFloat
 	}
-	tp = IsInt
-	return
+	return 0, 0, NaN
+}
+
+// isLuaSpace returns true if c is white space for the Lua lexer.
+func isLuaSpace(c byte) bool {
+	return c == ' ' || '\t' <= c && c <= '\r'
+}
+
+// trimLuaSpace removes the leading and trailing white space of s (ASCII white
+// space only, as the Lua lexer).
+func trimLuaSpace(s string) string {
+	for len(s) > 0 && isLuaSpace(s[0]) {
+		s = s[1:]
+	}
+	for len(s) > 0 && isLuaSpace(s[len(s)-1]) {
+		s = s[:len(s)-1]
+	}
+	return s
+}
+
+type numeralKind int
+
+const (
+	notNumeral numeralKind = iota
+	decIntNumeral
+	hexIntNumeral
+	decFloatNumeral
+	hexFloatNumeral
+)
+
+func isDecDigit(c byte) bool {
+	return '0' <= c && c <= '9'
+}
+
+func isHexDigit(c byte) bool {
+	return '0' <= c && c <= '9' || 'a' <= c && c <= 'f' || 'A' <= c && c <= 'F'
+}
+
+// scanNumeral checks that s is a numeral of the Lua lexer preceded by at most
+// one sign, with nothing before or after it, and returns what kind of numeral
+// it is:
+//
+//	[+-] digits [. digits] [(e|E) [+-] decdigits]       (at least one digit)
+//	[+-] 0(x|X) hexdigits [. hexdigits] [(p|P) [+-] decdigits]   (at least one hex digit)
+func scanNumeral(s string) numeralKind {
+	i := 0
+	if i < len(s) && (s[i] == '-' || s[i] == '+') {
+		i++
+	}
+	isDigit, expMarker := isDecDigit, byte('e')
+	intKind, floatKind := decIntNumeral, decFloatNumeral
+	if i+1 < len(s) && s[i] == '0' && (s[i+1] == 'x' || s[i+1] == 'X') {
+		i += 2
+		isDigit, expMarker = isHexDigit, 'p'
+		intKind, floatKind = hexIntNumeral, hexFloatNumeral
+	}
+	kind := intKind
+	nDigits := 0
+	for i < len(s) && isDigit(s[i]) {
+		i++
+		nDigits++
+	}
+	if i < len(s) && s[i] == '.' {
+		i++
+		kind = floatKind
+		for i < len(s) && isDigit(s[i]) {
+			i++
+			nDigits++
+		}
+	}
+	if nDigits == 0 {
+		return notNumeral
+	}
+	if i < len(s) && s[i]|0x20 == expMarker {
+		i++
+		kind = floatKind
+		if i < len(s) && (s[i] == '-' || s[i] == '+') {
+			i++
+		}
+		nExpDigits := 0
+		for i < len(s) && isDecDigit(s[i]) {
+			i++
+			nExpDigits++
+		}
+		if nExpDigits == 0 {
+			return notNumeral
+		}
+	}
+	if i != len(s) {
+		return notNumeral
+	}
+	return kind
 }
